@@ -115,6 +115,7 @@ type Exec struct {
 	topParams  map[string]Val
 	maxDepth   int
 	modulePath string
+	selfVal    *Val
 	topFrame   *Frame
 	topEnvVars map[string]Val
 	interior   map[*Term][]*LVal
